@@ -56,11 +56,6 @@ NA_FIXED = {
  "C06": "grid-independent convergence factor: a measured real-valued "
         "contraction rate against thresholds; no discrete state or "
         "transition to model in TLA+ (TLC has no reals)",
- "C07": "second-order finite-difference convergence of a real-valued "
-        "functional through a linear solve; analytic, not discrete (its "
-        "discrete ingredients are covered by C02/C09/C12/C13/C15)",
- "C08": "directional derivative / adjoint identity over real vectors through "
-        "solves; analytic, nothing for TLC to enumerate",
 }
 
 CLAIMED["C12"] = dict(
@@ -422,7 +417,60 @@ CLAIMED["C14"] = dict(
        "'The same data' is not observed separately from 'the same fields'.",
   ref="DESIGN.md section 5 (C14)", engine="tlc-mapping")
 
+CLAIMED["C07"] = dict(
+  category="exploration",
+  technique="TLA+ model of the discrete structure of the sensitivity "
+            "machinery (SensPipe.tla: adjoint sources from finite data, "
+            "collection of the directional gradients into the rows of the "
+            "anisotropy case, placement of the chain rule, shape) checked "
+            "exhaustively by TLC + TLC trace validation of real "
+            "Simulation.gradient runs whose numeric kernels are replaced by "
+            "tag writers (TraceSensPipe.tla), with finite-difference "
+            "observations of the unstubbed machinery attached",
+  text="Partial claim.  TLC decides AdjointSourcesExact (a datum enters the "
+       "adjoint source iff it is finite; at the receiver's absolute "
+       "position, with strength conj(residual weight / -s mu_0)), "
+       "CollectPartition (every <<pair, direction>> contribution ends "
+       "exactly once in the row of the parameter governing that direction), "
+       "ChainOnce, ShapeRule for every recorded gradient computation (48 "
+       "quick / 480 thorough simulations over six mappings, four anisotropy "
+       "cases, electric point / dipole / wire and magnetic sources, electric "
+       "and magnetic, absolute and relative receivers, NaN gaps, scalar / "
+       "array noise, explicit std).  The derivative claim is observed on "
+       "the same problems: central differences of the reported misfit "
+       "(h = 1e-4, fresh simulations, solver tol 1e-10) against "
+       "<gradient, d> for a dense and a single-row direction, rtol 1e-4 "
+       "(measured second-order convergence, error 5e-6 at h = 1e-4).",
+  note="Trusted: TLC, the tag-writing stubs (harness/sens.py), tolerances; "
+       "8^3 grids, computational grid = model grid, linear receiver "
+       "interpolation.",
+  ref="DESIGN.md section 5 (C07/C08)", engine="tlc-senspipe")
+
+CLAIMED["C08"] = dict(
+  category="exploration",
+  technique="TLA+ model SensPipe.tla (incl. ExpansionIsTranspose: jvec's "
+            "expansion of vector rows to edge directions is the transpose of "
+            "the gradient's collection) checked by TLC + TLC trace "
+            "validation of real jtvec runs with tag-writing kernels "
+            "(TraceSensPipe.tla) + attached observations of J v, "
+            "adjointness and jtvec(weighted residual)",
+  text="Partial claim.  TLC decides the structure of jtvec (the gradient "
+       "machinery with the residual replaced: adjoint sources exactly where "
+       "w / weights is finite, collection, chain rule, shape) for "
+       "gridding='same' and a provided computational grid, and the transpose "
+       "relation between jvec's expansion and the gradient's collection.  "
+       "Observed on every recorded problem: J v against central differences "
+       "of the synthetic data (1e-4), Re<w, J v> = <J^T w, v> for complex w "
+       "(1e-6) in both gridding modes, jtvec(weighted residual) = gradient "
+       "(1e-7), cached gradient untouched by jtvec.",
+  note="Trusted: TLC, the stubs, tolerances; gridding modes 'same' and "
+       "'input' only, in-memory, 8^3 grids.",
+  ref="DESIGN.md section 5 (C07/C08)", engine="tlc-senspipe")
+
 ENGINES = [
+ dict(name="tlc-senspipe", path="spec/SensPipe.tla",
+      serves_properties=["C07", "C08"],
+      kind_free_text="TLA+ spec + TLC exhaustive + TLC trace validation"),
  dict(name="tlc-mapping", path="spec/Mapping.tla", serves_properties=["C14"],
       kind_free_text="TLA+ specs + TLC exhaustive + TLC trace / instance "
                      "validation"),
